@@ -32,6 +32,8 @@ type RTPair struct {
 	NotWritten map[string]string
 	// Consumed: expected number of bytes the parser consumes (default: everything the writer emitted).
 	Consumed func(src *Source) lin.Form
+	// ConsumedSkip: sources on which the parser's consumption is not claimed.
+	ConsumedSkip func(src *Source) bool
 	// MinSources: floor on the number of writer outcomes composed.
 	MinSources int
 	// WriterPreds / WriterEq restrict the writer outcomes explored to one valuation of boolean cells / integer
@@ -51,6 +53,12 @@ type RTPair struct {
 	ParserParams map[string]func(src *Source) lin.Form
 	// Sources: specification sources (rule A4p) used instead of a writer's outcomes.
 	Sources func(c *Checker) []*Source
+	// ParserPreds: boolean facts about the parser's other parameters.
+	ParserPreds map[string]bool
+	// SkipSource: sources outside the situation this pair is about (reason returned); they are not composed.
+	SkipSource func(src *Source) string
+	// ExactLen: the parser's iterator holds exactly the emitted bytes.
+	ExactLen bool
 	// Start: byte offset at which the parser starts reading (bytes before it are consumed by its caller).
 	Start int64
 	// Guided: compose by interpreting the parser once per writer outcome (oracle.go) instead of refuting a flat
@@ -146,6 +154,23 @@ func (c *Checker) a3(r *report.Report, p RTPair) {
 			continue
 		}
 		src := c.SourceFromOutcome(p.Writer, o, p.WriterObj, fmt.Sprintf("%s when{%s}", load.FuncName(p.Writer), guardOf(o)))
+		if p.SkipSource != nil {
+			if why := p.SkipSource(src); why != "" {
+				r.Assume(p.Name + ": " + why)
+				continue
+			}
+		}
+		// the valuation the writer was explored under holds on every one of its outcomes
+		for k, v := range p.WriterEq {
+			d := lin.Sym(k).AddC(-v)
+			src.St.Facts = append(src.St.Facts, lin.Fact{F: d}, lin.Fact{F: d.Scale(-1)})
+		}
+		for k, v := range p.WriterPreds {
+			src.St.Preds[k] = v
+		}
+		if os.Getenv("ASTVERIF_PROGRESS") != "" {
+			fmt.Fprintf(os.Stderr, "A3 %s source facts=%v eq=%v\n", p.Name, src.St.Facts, p.WriterEq)
+		}
 		nsrc++
 		for _, a := range src.Computed {
 			assumed[a] = true
@@ -155,7 +180,9 @@ func (c *Checker) a3(r *report.Report, p RTPair) {
 			opts.Computed[path] = fn(src)
 			opts.Why[path] = p.Why[path]
 		}
-		if p.Consumed != nil {
+		if p.ConsumedSkip != nil && p.ConsumedSkip(src) {
+			// no consumption claim on this source
+		} else if p.Consumed != nil {
 			w := p.Consumed(src)
 			opts.Consumed = &w
 		} else if src.TotalOK && div8(src.Total) {
@@ -167,6 +194,8 @@ func (c *Checker) a3(r *report.Report, p RTPair) {
 		var comp *Composition
 		if p.Guided {
 			opts.Start = p.Start
+			opts.ExactLen = p.ExactLen
+			opts.Preds = p.ParserPreds
 			opts.Params = map[string]lin.Form{}
 			for name, fn := range p.ParserParams {
 				opts.Params[name] = fn(src)
@@ -213,7 +242,7 @@ func (c *Checker) a3(r *report.Report, p RTPair) {
 		r.OK("A3", key+"/accepted", pos, fmt.Sprintf("every stream the writer emits (%d outcomes) is accepted by exactly the matching parser path; no failure path of the parser is reachable on them", nsrc))
 	} else {
 		sort.Strings(accBad)
-		r.Bad("A3", key+"/accepted", pos, fmt.Sprintf("%d of %d writer outcomes: %s", len(accBad), nsrc, clip(accBad[0], 600)))
+		r.Bad("A3", key+"/accepted", pos, fmt.Sprintf("%d of %d writer outcomes: %s", len(accBad), nsrc, clip(accBad[0], 2500)))
 	}
 	if len(consBad) == 0 {
 		r.OK("A3", key+"/consumed", pos, "the parser consumes exactly what the writer emitted (or the declared part of it)")
@@ -353,7 +382,7 @@ func (c *Checker) a4p(r *report.Report, p RTPair) {
 		r.OK("A4", key+"/accepted", pos, fmt.Sprintf("every reference encoding (%d instances) is accepted by the parser", len(srcs)))
 	} else {
 		sort.Strings(accBad)
-		r.Bad("A4", key+"/accepted", pos, fmt.Sprintf("%d of %d instances: %s", len(accBad), len(srcs), clip(accBad[0], 600)))
+		r.Bad("A4", key+"/accepted", pos, fmt.Sprintf("%d of %d instances: %s", len(accBad), len(srcs), clip(accBad[0], 2500)))
 	}
 	if len(consBad) == 0 {
 		r.OK("A4", key+"/consumed", pos, "the parser consumes exactly the reference encoding")
